@@ -1,6 +1,6 @@
 (** Dispatch table used by the extracted runner: property number -> model runner / monitor. *)
 From RRE Require Import Base.Sx.
-From RRE Require Model.Watermark Model.Tms Model.ProofGraph Model.Undo Model.Module Model.Window Model.Join Model.KB.
+From RRE Require Model.Watermark Model.Tms Model.ProofGraph Model.Undo Model.Module Model.Window Model.Join Model.KB Model.Index.
 Open Scope Z_scope.
 
 Definition run_by_id (id : Z) (c : sx) : sx :=
@@ -11,6 +11,7 @@ Definition run_by_id (id : Z) (c : sx) : sx :=
   | 13 => Watermark.run_sx c
   | 14 => Join.run_sx c
   | 15 => KB.run_sx c
+  | 16 => Index.run_sx c
   | 17 => ProofGraph.run_sx c
   | 18 => Module.run_sx c
   | _ => sx_bad
@@ -28,6 +29,7 @@ Definition ok_by_id (id : Z) (c o : sx) : Z :=
   | 13 => b2z (Watermark.ok_sx c o)
   | 14 => b2z (Join.ok_sx c o)
   | 15 => b2z (KB.ok_sx c o)
+  | 16 => b2z (Index.ok_sx c o)
   | 17 => b2z (ProofGraph.ok_sx c o)
   | 18 => Module.ok_sx c o
   | _ => 0
